@@ -307,3 +307,19 @@ Theorem C04_file_table_is_mem_table : forall (array : bool) cfg n V (t : atable)
   (Z.of_nat (n * length t) < 2 ^ 57)%Z ->
   forall rest k, file_table array cfg n V (trie_counts n t) (C03.TrieImage.trie_image array cfg n t pz ++ rest) k = mem_table array cfg n V t pz k.
 Proof. exact file_table_is_mem_table. Qed.
+
+(* ---- the same for the probing model (C04/HashedParse.v, HashedParseProofs.v): HashedSearch::SetupMemory's slices -- the unigram
+   array and one table of `buckets` cells per order -- parsed from the bytes of the search structure give back the unigram values and the
+   cells of every table (a table built by Insert holds only empty cells and its entries, all of which fit their fields), and the table the
+   loaded memory answers with is pmem_table, for which C03_probing_memory_table_invariants holds; so by C04_same_table_same_answers every
+   query on the loaded probing file is the query on the built model.  The bucket counts stay a parameter: ProbingHashTable::Size is a
+   float32 product (mirrored in the harness, compared in C20's SZ stream). *)
+From Kenlm Require Import C03.ProbingEndToEnd C04.HashedParse C04.HashedParseProofs.
+Theorem C04_probing_file_table_is_pmem_table : forall (t : atable) buckets n V slots img rest,
+  (2 <= n)%nat -> length buckets = (n - 1)%nat -> (V <= Z.of_nat slots)%Z ->
+  NoDup (map fst t) ->
+  (forall w, Defs.alookup t [w] <> None <-> (Z.of_N w < V)%Z) ->
+  (forall k e, Defs.alookup t k = Some e -> (- 2 ^ 24 < e_prob e < 2 ^ 24 /\ - 2 ^ 24 < e_bo e < 2 ^ 24)%Z) ->
+  probing_image t slots buckets = Some img ->
+  forall k, file_ptable buckets n V (parse_probing slots buckets (img ++ rest)) k = pmem_table buckets n V t k.
+Proof. exact file_ptable_is_pmem_table. Qed.
